@@ -40,6 +40,11 @@ func stateAnnotation(s *Scanner, c byte) *jerr.JApiError {
 func stateMultilineAnnotationTextStart(s *Scanner, c byte) *jerr.JApiError {
 	s.foundAt(s.curIndex, AnnotationBegin)
 	s.step = stateMultilineAnnotation
+	if c == AnnotationDelimiterPart {
+		// "/*/": this slash cannot close the annotation, the asterisk before it
+		// belongs to the opening delimiter.
+		return nil
+	}
 	return stateMultilineAnnotation(s, c)
 }
 
